@@ -109,7 +109,11 @@ def run(shard, ctx):
             for near in (float("%.7f" % v), v * (1 + 1e-7), v * (1 - 1e-7), float("%.6f" % v)):
                 ctx.call(V.determine, near)
         for v, exp in voc:
-            # the same value given as an exact Fraction
+            # the same value given as an exact Fraction (for undotted, single-dotted and tuplet values, which are recognised by
+            # range: a Fraction is not *built by* the library's constructors, and the exact-equality recognition of 2-4 dots is
+            # promised for what they build - floats)
+            if exp[1] >= 2:
+                continue
             fr = (Fraction(1) / Fraction(exp[0])) * (2 - Fraction(1, 2 ** exp[1])) * Fraction(exp[3], exp[2])
             st, t = ctx.call(V.determine, 1 / fr)
             ctx.check("analysis: determine returns the (base, dots, ratio) the value was built from", st == "ok" and same(t, exp),
